@@ -19,7 +19,10 @@ func (f *syntaxAggregateFunction) retrieve(
 		return err
 	}
 
-	result := values.result
+	// The buffer goes back to the pool when this call returns,
+	// so the user function gets a list of its own that it may keep.
+	result := make([]interface{}, len(values.result))
+	copy(result, values.result)
 	if !f.param.isValueGroup() {
 		if arrayParam, ok := values.result[0].([]interface{}); ok {
 			result = arrayParam
